@@ -44,6 +44,9 @@ Definition sess_ok (X : sess) : bool :=
   sess_text (s_iptext X) && sess_text (s_mailfrom X) && sess_text (s_helostr X)
   && sess_text (s_remotehost X) && sess_text (s_heloname X).
 
+(** RFC 7208, 4.6.4: "SPF implementations MUST limit the total number of those terms to 10 during SPF evaluation" *)
+Definition RFC_TERM_LIMIT : nat := 10.
+
 (** number of evaluations of DNS querying terms recorded in a model run *)
 Definition count_terms (l : list ev) : nat :=
   length (filter (fun e => match e with ETerm => true | _ => false end) l).
@@ -80,7 +83,7 @@ Definition spec_ok_C11 (zone_has_exp : bool) (o : obs) : bool :=
   result_ok (o_rc o)
   && exp_ok (o_exp o)
   && match o_rcv o with Some h => hdr_ok h | None => true end
-  && Nat.leb (terms_lower_bound zone_has_exp (o_log o)) SPF_TERM_LIMIT.
+  && Nat.leb (terms_lower_bound zone_has_exp (o_log o)) RFC_TERM_LIMIT.
 
 (** does a TXT record carry an exp= modifier (as find_modifier() sees it)? *)
 Fixpoint has_exp_mod (s : bytes) : bool :=
